@@ -26,7 +26,8 @@ InitGen == [toks |-> <<>>,
             es |-> <<>>,                   \* expression under construction (operator profile), RPN stack
             esize |-> 0,
             lamc |-> <<0>>,                \* per open function: lambdas compiled so far (they are named lambda-N)
-            nloop |-> 0]
+            nloop |-> 0,
+            nfib |-> 0]
 
 GTop(s) == s[Len(s)]
 GPop(s) == SubSeq(s, 1, Len(s) - 1)
@@ -46,16 +47,20 @@ Resolve(g, x) == FindInFuncs(g.funcs, x, Len(g.funcs))[1]
 
 (* names declared so far and what they are ("var" | "fn"), locals first then globals *)
 LocalNames(g) == UNION {UNION {{<<s[i][1], s[i][3]>> : i \in 1..Len(s)} : s \in {f[j] : j \in 1..Len(f)}} : f \in {g.funcs[k] : k \in 1..Len(g.funcs)}}
-GlobalNames(g) == {<<g.toks[i].x, IF g.toks[i].t = "fn" THEN "fn" ELSE "var">> :
+FiberNames == {"fb0", "fb1", "fb2"}          \* variables that hold fibers (profile "fiber") are told apart by their names
+GlobalNames(g) == {<<g.toks[i].x, IF g.toks[i].t = "fn" THEN "fn" ELSE IF g.toks[i].x \in FiberNames THEN "fiber" ELSE "var">> :
                      i \in {j \in 1..Len(g.toks) : g.toks[j].t \in {"var", "fn"} /\ g.toks[j].d = 0}}
 Known(g) == LocalNames(g) \cup GlobalNames(g)
 VarsKnown(g) == {p[1] : p \in {q \in Known(g) : q[2] = "var"}}
 FnsKnown(g)  == {p[1] : p \in {q \in Known(g) : q[2] = "fn"}}
+FibersKnown(g) == {p[1] : p \in {q \in Known(g) : q[2] = "fiber"}}
 
 V(g, x) == [k |-> "var", x |-> x, d |-> Resolve(g, x)]
 L(v) == [k |-> "lit", v |-> v]
 Bin(op, l, r) == [k |-> "bin", op |-> op, l |-> l, r |-> r]
 CallE(f, args) == [k |-> "call", f |-> f, args |-> args]
+Inv(o, mth, args) == [k |-> "inv", o |-> o, m |-> mth, args |-> args]
+FiberCls == [k |-> "var", x |-> "Fiber", d |-> 0]
 Pos(g) == Len(g.toks) + 1
 
 LamName(g) == "lambda-" \o ToString(g.lamc[Len(g.lamc)])
@@ -68,6 +73,16 @@ CountLams(e) ==
       [] OTHER -> 0
 
 (* ---- expression choices (kept small: every step has few alternatives) ---------------------- *)
+(* fibers: resume a fiber held in a variable (with / without a value), ask whether it has finished, and - inside a function,
+   which may or may not be running as a fiber's body when it is called - yield (with / without a value) *)
+FiberExprs(g) ==
+    IF "fiber" \notin Vocab THEN {}
+    ELSE {Inv(V(g, x), "call", <<>>) : x \in FibersKnown(g)}
+    \cup {Inv(V(g, x), "call", <<L(N(Pos(g)))>>) : x \in FibersKnown(g)}
+    \cup {Inv(V(g, x), "has_finished", <<>>) : x \in FibersKnown(g)}
+    \cup (IF \E i \in 1..Len(g.open) : g.open[i].c = "fn"
+          THEN {Inv(FiberCls, "yield", <<>>), Inv(FiberCls, "yield", <<L(N(Pos(g)))>>)} \cup {Inv(FiberCls, "yield", <<V(g, x)>>) : x \in VarsKnown(g)}
+          ELSE {})
 Atoms(g) == {L(N(Pos(g)))} \cup {V(g, x) : x \in VarsKnown(g)}
 Simple(g) == Atoms(g)
            \cup (IF "arith" \in Vocab THEN {Bin("+", V(g, x), L(N(1))) : x \in VarsKnown(g)} ELSE {})
@@ -80,6 +95,7 @@ Simple(g) == Atoms(g)
                    {[k |-> "lam", ps |-> <<>>, e |-> [k |-> "assign", x |-> x, d |-> Resolve(g, x), e |-> Bin("+", V(g, x), L(N(10)))],
                      name |-> LamName(g)] : x \in VarsKnown(g)}
                  ELSE {})
+           \cup FiberExprs(g)
 Conds(g) == {L(B(TRUE)), L(B(FALSE))} \cup {Bin("<", V(g, x), L(N(2))) : x \in VarsKnown(g)}
 
 (* does expression e mention name x (as written, whatever it resolves to) *)
@@ -91,6 +107,7 @@ Mentions(e, x) ==
       [] e.k = "call" -> Mentions(e.f, x) \/ (\E i \in 1..Len(e.args) : Mentions(e.args[i], x))
       [] e.k = "lam" -> Mentions(e.e, x)
       [] e.k = "assign" -> e.x = x \/ Mentions(e.e, x)
+      [] e.k = "inv" -> Mentions(e.o, x) \/ (\E i \in 1..Len(e.args) : Mentions(e.args[i], x))
       [] OTHER -> FALSE
 
 (* ---- scope bookkeeping --------------------------------------------------------------------- *)
@@ -127,7 +144,12 @@ Stmts(g) ==
          {Emit(g, [t |-> "expr", e |-> [k |-> "assign", x |-> q[1], d |-> Resolve(g, q[1]), e |-> q[2]]]) :
             q \in {r \in VarsKnown(g) \X Simple(g) : r[2] # V(g, r[1])}} ELSE {})
  \cup (IF "exprstmt" \in Vocab /\ Room(g, 1) THEN
-         {Emit(g, [t |-> "expr", e |-> e]) : e \in {s \in Simple(g) : s.k = "call"}} ELSE {})
+         {Emit(g, [t |-> "expr", e |-> e]) : e \in {s \in Simple(g) : s.k \in {"call", "inv"}}} ELSE {})
+ \cup (IF "fiber" \in Vocab /\ Room(g, 1) /\ g.nfib < 2 THEN
+         \* var fbN = Fiber.new(f);   f: a function declared so far (its arity 0 or 1 decides how the first call must look)
+         {LET x == "fb" \o ToString(g.nfib) IN
+          [Emit(Declare(g, x, "fiber"), [t |-> "var", x |-> x, d |-> DeclId(g), e |-> Inv(FiberCls, "new", <<V(g, f)>>)]) EXCEPT !.nfib = g.nfib + 1]
+          : f \in FnsKnown(g)} ELSE {})
  \cup (IF "if" \in Vocab /\ Room(g, 3) THEN {Open(PushScope(Emit(g, [t |-> "if", e |-> c])), "if") : c \in Conds(g)} ELSE {})
  \cup (IF "block" \in Vocab /\ Room(g, 3) THEN {Open(PushScope(Emit(g, [t |-> "block"])), "block")} ELSE {})
  \cup (IF "while" \in Vocab /\ Room(g, 5) THEN
